@@ -111,6 +111,32 @@ func c30(c *core.Ctx) {
 			}
 		}
 	}
+	// every server channel starts from its own configuration object: the negotiated policy and mode are written into it
+	c.Rule("C30.fresh", "the uasc.Config handed to NewServerSecureChannel is allocated per connection (defaultChannelConfig returns a fresh object): the policy / mode negotiated on one channel is written into that object and must not become the starting point — or the effective mode — of another client's channel", 1)
+	if dcc := fn(c, "server", "", "defaultChannelConfig"); dcc != nil {
+		ok := true
+		detail := "returns a fresh allocation"
+		for _, r := range ssax.Returns(dcc) {
+			v := ssax.Strip(ssax.RetVal(r, 0))
+			if _, isAlloc := v.(*ssa.Alloc); !isAlloc {
+				ok = false
+				detail = "returns " + ssax.Path(v) + ", not an object allocated by the call: all server channels share it"
+			} else if al := v.(*ssa.Alloc); !al.Heap {
+				ok = false
+			}
+		}
+		c.Ob("C30.fresh", fname(dcc)+"·fresh config per connection", c.P.Pos(dcc.Pos()), ok, detail)
+	} else {
+		// inlined at the call site: the argument of NewServerSecureChannel must be a fresh allocation
+		nsc := obj(c, "uasc", "", "NewServerSecureChannel")
+		for _, f := range libFns(c, "server") {
+			for _, call := range ssax.CallsTo(f, nsc) {
+				args := call.Common().Args
+				_, isAlloc := ssax.Strip(args[2]).(*ssa.Alloc)
+				c.Ob("C30.fresh", fname(f)+"·fresh config per connection", pos(c, call), isAlloc, "config argument is a fresh allocation: "+boolStr(isAlloc))
+			}
+		}
+	}
 	// advertise
 	{
 		for _, t := range []struct {
